@@ -1,6 +1,7 @@
 """C01 / C02 / C03 / C08 as instances of the shared pipeline exploration."""
 from __future__ import annotations
 
+import copy
 import time
 from props import pipeline as P
 from props.common import Candidate, Job, JobResult
@@ -126,10 +127,72 @@ def job_skeleton(job):
       st.merge(en.stats)
       cands += cs
       inconc += [f'{skel}/after {a} then {b}: {x}' for x in en.inconclusive]
+  # a calibration result produced under another recipe (other weight
+  # granularity / bit widths) is reused: its entries for the constants were
+  # shaped by that recipe
+  if prop in ('C01', 'C03') and skel in RECAL_SKELETONS:
+    for tag in ('chan->tensor', 'tensor->chan', 'a16->a8'):
+      cal_rec, fin = _recal_recipes(tag)
+      en, cs = P.explore_case(skel, f'recal:{tag}', mb, fin, ORACLES[prop],
+                              const_stats_recipe=cal_rec)
+      st.merge(en.stats)
+      for c in cs:
+        c.data['recal'] = tag
+      cands += cs
+      inconc += [f'{skel}/recal {tag}: {x}' for x in en.inconclusive]
   r = JobResult(job.name, st.as_dict(), cands, inconc, {}, samples=samples)
   for c in cands:
     c.job = job.name
   return r
+
+
+RECAL_SKELETONS = ('single_FC', 'single_CONV_2D', 'single_DEPTHWISE_CONV_2D',
+                   'single_TRANSPOSE_CONV', 'single_BMM_CONST', 'fc_fc',
+                   'single_ADD_CONST')
+
+
+def _recal_recipes(tag):
+  srq_t = copy.deepcopy(P._cfg('SRQ8'))
+  srq_t['weight_tensor_config']['granularity'] = 'TENSORWISE'
+  rec_c = [P.rule('.*', '*', 'SRQ8')]
+  rec_t = [dict(P.rule('.*', '*', 'SRQ8'), op_config=srq_t)]
+  return {'chan->tensor': (rec_c, rec_t), 'tensor->chan': (rec_t, rec_c),
+          'a16->a8': ([P.rule('.*', '*', 'SRQ16')], rec_c)}[tag]
+
+
+def _replay_recal(d):
+  """Public API: calibrate() under one recipe (real interpreter), load the
+  other recipe, quantize() with that calibration result."""
+  import numpy as np
+  from ai_edge_quantizer import quantizer as quantizer_lib
+  from tensorflow.lite.tools import flatbuffer_utils
+  cal_rec, fin = _recal_recipes(d['recal'])
+  mb = P.model_bytes_of(d['skeleton'])
+  inp = flatbuffer_utils.read_model_from_bytearray(bytearray(mb))
+  q = quantizer_lib.Quantizer(mb, copy.deepcopy(cal_rec))
+  rng = np.random.default_rng(2)
+  from props import c09
+  res = None
+  for key, sd in c09.signatures(inp):
+    sg = inp.subgraphs[sd.subgraphIndex]
+    s = {}
+    for tm in sd.inputs:
+      t = sg.tensors[tm.tensorIndex]
+      nm = tm.name.decode() if isinstance(tm.name, bytes) else tm.name
+      s[nm] = rng.normal(size=tuple(t.shape)).astype(np.float32)
+    res = q.calibrate([s], key, res)
+  q.load_quantization_recipe(copy.deepcopy(fin))
+  out = P.Outcome()
+  out.input_model, out.recipe, out.recipe_manager = inp, fin, q._recipe_manager
+  try:
+    with np.errstate(all='ignore'):
+      r = q.quantize(res)
+    out.model = flatbuffer_utils.read_model_from_bytearray(
+        bytearray(r.quantized_model))
+    out.raised = None
+  except Exception as ex:  # pylint: disable=broad-except
+    out.raised = ex
+  return {'outcome': out}
 
 
 # valid flatbuffers, but not "converter normal form" (C08's domain): the
@@ -320,6 +383,15 @@ def replay(prop, c):
           f"{x.data['problems'][:2]}" for x in r.candidates]
     return bool(pr), 'returned bytes: ' + (
         r.candidates[0].data['form'] if r.candidates else ''), str(pr[:2])
+  if d.get('recal'):
+    res = _replay_recal(d)
+    probs = CONCRETE[prop](res['outcome'])
+    what = (f"skeleton={d['skeleton']} calibration result of another recipe "
+            f"({d['recal']}): {probs[:3]}")
+    if not probs and d.get('concretize') == 'unsat':
+      return 'drop', 'spurious', what
+    return bool(probs), 'calibration result reused under another recipe: ' + (
+        probs[0][:50] if probs else ''), what
   if d.get('history'):
     fam_recipe = d['recipe']
     pasts = _pasts()
